@@ -71,7 +71,7 @@ class YamlModel:
 
     # ------------------------------------------------------------------ loader
     def load_group(self, date, group, parameters=None, _depth=0):
-        if _depth > 40:
+        if _depth > 300:
             raise Missing(f"deviation_from/access_different_date recursion does not terminate in {group}")
         r = self.raw(group)
         out = {}
